@@ -227,7 +227,7 @@ def build_unit(u, wd):
 
 
 def cbmc_cmd(u, gb, extra=()):
-    cmd = ["cbmc", str(gb), "--json-ui"] + COMMON_CHECKS
+    cmd = ["cbmc", str(gb), "--json-ui"] + [c for c in COMMON_CHECKS if c not in (u.drop_checks or [])]
     if u.unwind:
         cmd += ["--unwind", str(u.unwind), "--unwinding-assertions"]
     for fn, n in (u.unwindset or []):
@@ -314,6 +314,9 @@ def run_unit(u, wd, tier):
             canary_seen = True
             if st == "FAILURE":
                 canary_hit = True
+            continue
+        if u.ignore and any(re.search(k, desc) for k in u.ignore):
+            r.setdefault("ignored", []).append(res.get("property"))   # check class outside the property (documented per unit)
             continue
         obligations.append(res)
         if st == "SUCCESS":
@@ -434,8 +437,9 @@ def native_replay(u, inputs, wd):
             v = json.dumps(v)
         args.append("%s=%s" % (k, v))
     env_rc, out, err, t = run([str(exe)] + args, rp.get("timeout", 300), None)  # ASan needs its shadow map: no RLIMIT_AS
-    text = (out + err)[-2000:]
-    confirmed = ("REPLAY CONFIRMED" in text) or bool(re.search(r"ERROR: AddressSanitizer: (?!failed to allocate)|runtime error:", text))
+    full = out + err
+    confirmed = ("REPLAY CONFIRMED" in full) or bool(re.search(r"ERROR: AddressSanitizer: (?!failed to allocate)|runtime error:", full))
+    text = full if len(full) <= 2400 else full[:1800] + "\n[...]\n" + full[-500:]
     return confirmed, text
 
 
